@@ -576,3 +576,8 @@ def replay_args(v):
         # two shutdowns with a decreasing id, then arrivals on every id around the line
         return ("c08_shutdown_sequence", ["2", "0"])
     return None
+
+
+# native scenarios that exercise, against the real build, the behaviours this spec decides: on a tree where the spec finds no
+# violation every one of them must NOT reproduce (a scenario that reproduces there means the spec misses something)
+SCENARIOS = [('c08_goaway', ['1', '1']), ('c08_goaway', ['2', '0']), ('c08_shutdown_sequence', ['2', '0']), ('c08_client_goaways', ['8,4,8']), ('c08_client_goaways', ['8,4,4']), ('c08_client_goaways', ['0,4'])]
